@@ -8,7 +8,7 @@ executes (carrier `Float`, compared bit for bit) against `Cooler.matrix(balance=
 algebraic law is used, so the theorems hold verbatim for IEEE-754 binary64.
 -/
 namespace Cooler.C12
-open Cooler
+open Cooler Cooler.Bal
 
 variable {ρ α : Type}
 
@@ -424,5 +424,191 @@ example : dumpBalanced toyOps toyCols [(1, 0, 7)] = .ok [2 * (2 * 2 + 3 * 1) + 3
 example : balancedDense toyOps toyCols "missing" false 0 1 0 1 [[1]] = .error .value := by rfl
 example : coolerPixels toyOps toyCols (.named "missing") none [(0, 0, 1)] = .error .value := by rfl
 example : coolerPixels toyOps [("KR", [5, 6])] .on none [(0, 0, 1)] = .error .value := by rfl
+
+/-! ## the model meets the property's contract
+
+The contract (`cellOk`, `denseOk`, `sparseOk`, `pixelsOk` in the model file) accepts any bracketing of
+the product of the three factors; the correspondence feeds the implementation's results to it.  These
+theorems show that the bracketing the code uses today is accepted, for every input. -/
+
+theorem denseCell_ok (o : Ops ρ α) (eqv : α → α → Bool) (hrefl : ∀ v, eqv v v = true)
+    (w : List α) (div : Bool) (a b : Nat) (x : ρ) (v : α)
+    (h : denseCell o w div a b x = some v) : cellOk o eqv w div a b x v = true := by
+  unfold denseCell at h
+  unfold cellOk
+  cases ha : wtAt o w div a <;> cases hb : wtAt o w div b <;> simp [ha, hb] at h ⊢
+  subst h
+  simp [products3, hrefl]
+
+theorem entryCell_ok (o : Ops ρ α) (eqv : α → α → Bool) (hrefl : ∀ v, eqv v v = true)
+    (w : List α) (div : Bool) (a b : Nat) (x : ρ) (v : α)
+    (h : entryCell o w div a b x = some v) : cellOk o eqv w div a b x v = true := by
+  unfold entryCell at h
+  unfold cellOk
+  cases ha : wtAt o w div a <;> cases hb : wtAt o w div b <;> simp [ha, hb] at h ⊢
+  subst h
+  simp [products3, hrefl]
+
+/-- a value accepted by the contract is a product of exactly the raw value, the weight of bin `a`
+and the weight of bin `b` (so the contract is not vacuous: it pins the three factors) -/
+theorem cellOk_factors (o : Ops ρ α) (eqv : α → α → Bool) (w : List α) (div : Bool) (a b : Nat) (x : ρ) (v : α)
+    (h : cellOk o eqv w div a b x v = true) :
+    ∃ wa wb, w[a]? = some wa ∧ w[b]? = some wb ∧
+      ∃ p ∈ products3 o (o.ofRaw x) (if div then o.inv wa else wa) (if div then o.inv wb else wb), eqv v p = true := by
+  unfold cellOk wtAt at h
+  cases ha : w[a]? <;> cases hb : w[b]? <;> simp [ha, hb] at h
+  rename_i wa wb
+  exact ⟨wa, wb, rfl, rfl, by simpa using h⟩
+
+/-- **dense_contract** -/
+theorem dense_contract (o : Ops ρ α) (eqv : α → α → Bool) (hrefl : ∀ v, eqv v v = true)
+    (cols : Cols α) (name : String) (w : List α)
+    (hw : cols.lookup name = some w) (div : Bool) (i0 i1 j0 j1 : Nat) (raw : List (List ρ))
+    (hi : i1 ≤ w.length) (hj : j1 ≤ w.length)
+    (hrows : raw.length = i1 - i0) (hcols : ∀ row ∈ raw, row.length = j1 - j0) :
+    ∃ out, balancedDense o cols name div i0 i1 j0 j1 raw = .ok out ∧
+      denseOk o eqv w div i0 j0 raw out = true := by
+  obtain ⟨out, hout, hlen, hrowlen⟩ := dense_shape o cols name w hw div i0 i1 j0 j1 raw hi hj hrows hcols
+  refine ⟨out, hout, ?_⟩
+  unfold denseOk
+  simp only [Bool.and_eq_true, beq_iff_eq, List.all_eq_true, List.mem_range]
+  refine ⟨by omega, ?_⟩
+  intro r hr
+  have hor : r < out.length := by omega
+  rw [List.getElem?_eq_getElem hr, List.getElem?_eq_getElem hor]
+  simp only [Bool.and_eq_true, beq_iff_eq, List.all_eq_true, List.mem_range]
+  have hrl := hcols _ (List.getElem_mem hr)
+  have hol := hrowlen _ (List.getElem_mem hor)
+  refine ⟨by omega, ?_⟩
+  intro c hc
+  have hco : c < (out[r]).length := by omega
+  rw [List.getElem?_eq_getElem hc, List.getElem?_eq_getElem hco]
+  simp only
+  apply denseCell_ok o eqv hrefl
+  obtain ⟨out', hout', hcell⟩ := dense_spec o cols name w hw div i0 i1 j0 j1 raw r c (by omega) (by omega)
+  have : out' = out := by rw [hout] at hout'; exact (Except.ok.inj hout').symm
+  subst this
+  have e1 : cell out' r c = some (out'[r][c]) := by
+    simp [cell, List.getElem?_eq_getElem hor, List.getElem?_eq_getElem hco]
+  have e2 : cell raw r c = some (raw[r][c]) := by
+    simp [cell, List.getElem?_eq_getElem hr, List.getElem?_eq_getElem hc]
+  rw [e1, e2] at hcell
+  simpa using hcell.symm
+
+/-- a successful `mapE` relates inputs and outputs pairwise -/
+theorem mapE_zip_all {β γ : Type} (f : β → Except Err γ) (P : β × γ → Bool)
+    (hP : ∀ x y, f x = .ok y → P (x, y) = true) (l : List β) (out : List γ)
+    (h : mapE f l = .ok out) : out.length = l.length ∧ (l.zip out).all P = true := by
+  induction l generalizing out with
+  | nil =>
+    simp only [mapE] at h
+    cases h
+    simp
+  | cons a as ih =>
+    simp only [mapE] at h
+    cases hfa : f a with
+    | error e => rw [hfa] at h; cases h
+    | ok y =>
+      rw [hfa] at h
+      cases hrest : mapE f as with
+      | error e => rw [hrest] at h; cases h
+      | ok ys =>
+        rw [hrest] at h
+        cases h
+        obtain ⟨hl, hall⟩ := ih ys hrest
+        exact ⟨by simp [hl], by simp [List.zip_cons_cons, List.all_cons, hP a y hfa, hall]⟩
+
+/-- **sparse_contract** -/
+theorem sparse_contract (o : Ops ρ α) (eqv : α → α → Bool) (hrefl : ∀ v, eqv v v = true)
+    (cols : Cols α) (name : String) (w : List α)
+    (hw : cols.lookup name = some w) (div : Bool) (i0 i1 j0 j1 : Nat) (raw : List (Nat × Nat × ρ))
+    (out : List (Nat × Nat × α)) (h : balancedSparse o cols name div i0 i1 j0 j1 raw = .ok out) :
+    sparseOk o eqv w div i0 j0 raw out = true := by
+  rw [sparse_eq_spec o cols name w hw] at h
+  unfold sparseSpec at h
+  have hP : ∀ (e : Nat × Nat × ρ) (y : Nat × Nat × α),
+      (if e.1 < i1 - i0 ∧ e.2.1 < j1 - j0 then
+        match entryCell o w div (i0 + e.1) (j0 + e.2.1) e.2.2 with
+        | some v => Except.ok (e.1, e.2.1, v)
+        | none => Except.error Err.index
+      else Except.error Err.index) = Except.ok y →
+      (fun (p : (Nat × Nat × ρ) × (Nat × Nat × α)) => p.2.1 == p.1.1 && p.2.2.1 == p.1.2.1 &&
+        cellOk o eqv w div (i0 + p.1.1) (j0 + p.1.2.1) p.1.2.2 p.2.2.2) (e, y) = true := by
+    intro e y hy
+    by_cases hwin : e.1 < i1 - i0 ∧ e.2.1 < j1 - j0
+    · rw [if_pos hwin] at hy
+      cases hcell : entryCell o w div (i0 + e.1) (j0 + e.2.1) e.2.2 with
+      | none => rw [hcell] at hy; cases hy
+      | some v =>
+        rw [hcell] at hy
+        cases hy
+        simp [entryCell_ok o eqv hrefl w div _ _ _ v hcell]
+    · rw [if_neg hwin] at hy; cases hy
+  obtain ⟨hl, hall⟩ := mapE_zip_all _
+    (fun (p : (Nat × Nat × ρ) × (Nat × Nat × α)) => p.2.1 == p.1.1 && p.2.2.1 == p.1.2.1 &&
+      cellOk o eqv w div (i0 + p.1.1) (j0 + p.1.2.1) p.1.2.2 p.2.2.2) hP raw out h
+  unfold sparseOk
+  simp only [hl, beq_self_eq_true, Bool.true_and]
+  exact hall
+
+/-- **pixels_contract** -/
+theorem pixels_contract (o : Ops ρ α) (eqv : α → α → Bool) (hrefl : ∀ v, eqv v v = true)
+    (cols : Cols α) (name : String) (w : List α)
+    (hw : cols.lookup name = some w) (div : Bool) (raw : List (Nat × Nat × ρ))
+    (out : List α) (h : balancedPixels o cols name div raw = .ok out) :
+    pixelsOk o eqv w div raw out = true := by
+  rw [pixels_eq_spec o cols name w hw] at h
+  unfold pixelsSpec at h
+  have hP : ∀ (e : Nat × Nat × ρ) (y : α),
+      (match entryCell o w div e.1 e.2.1 e.2.2 with
+        | some v => Except.ok v
+        | none => Except.error Err.index) = Except.ok y →
+      (fun (p : (Nat × Nat × ρ) × α) => cellOk o eqv w div p.1.1 p.1.2.1 p.1.2.2 p.2) (e, y) = true := by
+    intro e y hy
+    cases hcell : entryCell o w div e.1 e.2.1 e.2.2 with
+    | none => rw [hcell] at hy; cases hy
+    | some v =>
+      rw [hcell] at hy
+      cases hy
+      exact entryCell_ok o eqv hrefl w div _ _ _ _ hcell
+  obtain ⟨hl, hall⟩ := mapE_zip_all _
+    (fun (p : (Nat × Nat × ρ) × α) => cellOk o eqv w div p.1.1 p.1.2.1 p.1.2.2 p.2) hP raw out h
+  unfold pixelsOk
+  simp only [hl, beq_self_eq_true, Bool.true_and]
+  exact hall
+
+/-- **dump_contract** -/
+theorem dump_contract (o : Ops ρ α) (eqv : α → α → Bool) (hrefl : ∀ v, eqv v v = true)
+    (cols : Cols α) (w : List α) (hw : cols.lookup "weight" = some w) (raw : List (Nat × Nat × ρ))
+    (out : List α) (h : dumpBalanced o cols raw = .ok out) :
+    pixelsOk o eqv w false raw out = true := by
+  rw [dump_spec o cols w hw] at h
+  unfold pixelsSpec at h
+  have hP : ∀ (e : Nat × Nat × ρ) (y : α),
+      (match entryCell o w false e.1 e.2.1 e.2.2 with
+        | some v => Except.ok v
+        | none => Except.error Err.index) = Except.ok y →
+      (fun (p : (Nat × Nat × ρ) × α) => cellOk o eqv w false p.1.1 p.1.2.1 p.1.2.2 p.2) (e, y) = true := by
+    intro e y hy
+    cases hcell : entryCell o w false e.1 e.2.1 e.2.2 with
+    | none => rw [hcell] at hy; cases hy
+    | some v =>
+      rw [hcell] at hy
+      cases hy
+      exact entryCell_ok o eqv hrefl w false _ _ _ _ hcell
+  obtain ⟨hl, hall⟩ := mapE_zip_all _
+    (fun (p : (Nat × Nat × ρ) × α) => cellOk o eqv w false p.1.1 p.1.2.1 p.1.2.2 p.2) hP raw out h
+  unfold pixelsOk
+  simp only [hl, beq_self_eq_true, Bool.true_and]
+  exact hall
+
+-- the contract is not vacuous: it accepts another bracketing of the same factors and rejects a
+-- value built with the row weight used twice
+example : cellOk toyOps (· == ·) [1, 2, 3, 4] false 1 2 7 (2 * (2 * 1007 + 3 * 2) + 3 * 3) = true := by rfl
+example : cellOk toyOps (· == ·) [1, 2, 3, 4] false 1 2 7 (2 * (2 * 2 + 3 * 2) + 3 * 1007) = false := by rfl
+example : denseOk toyOps (· == ·) [1, 2, 3, 4] false 1 1 [[1, 1]]
+    [[2 * 1001 + 3 * (2 * 2 + 3 * 2), 2 * 1001 + 3 * (2 * 2 + 3 * 3)]] = true := by rfl
+example : denseOk toyOps (· == ·) [1, 2, 3, 4] false 1 1 [[1, 1]]
+    [[2 * 1001 + 3 * (2 * 2 + 3 * 2), 2 * 1001 + 3 * (2 * 2 + 3 * 2)]] = false := by rfl
 
 end Cooler.C12
